@@ -18,7 +18,10 @@ RULE = ('amounts n (smallest units): every integer of [0, 10^6] and [21e14-10^6,
         '0..8 decimals (minimal / padded / zero-extended renderings), plus sub-unit strings with up to 14 decimals; '
         'directions: parse (value_to_satoshi / Value(str), with and without network argument), from_satoshi(n[, den]), '
         'format (str(den, decimals) judged numerically), format->parse round trip, numeric constructor Value(k, den) '
-        'and float literals, Output/Input/add_output value forms and transaction totals; non-trivial = distinct '
+        'and float literals, Output/Input/add_output value forms and transaction totals; unit-carrying strings x every '
+        '`denominator=` display argument (symbol and numeric form, incl. sat / 1e-8 / 1 / m / µ) judged on value_sat and all integer '
+        'views; sequences of 2-4 conversions in one process whose texts differ only in prefix case (m/M, p/P ...), currency-code '
+        'case or whitespace, in shuffled order through value_to_satoshi / Value / Input; non-trivial = distinct '
         '(direction, magnitude class, denominator, currency code, rendering)')
 TRUSTED_BASE = ['exact integer and fractions.Fraction arithmetic on decimal strings (python stdlib)',
                 'own table of metric prefixes (SI; bitcoin wiki Units: sat = 1e-8, fin = 1e-7, msat = 1e-11, usat = 1e-14)',
@@ -607,8 +610,217 @@ def chk_totals(case, col, tally=None):
         col.violation(None, 'calculate_fee() = %r is not a non-negative integer' % (cf,), case, repr(cf), 'non-negative int')
 
 
+# ------------------------------------------------------------------ unit-carrying strings x display denominator argument
+def _den_arg(spec):
+    """JSON description of the `denominator=` argument -> (python value, exponent of the display denominator or None)"""
+    if spec is None:
+        return None, None
+    if spec.startswith('num:'):
+        e = DEN_EXP[spec[4:]]
+        return (10 ** e if e >= 0 else float('1e%d' % e)), e
+    return spec, DEN_EXP[spec]
+
+
+def _judge_int(got, exact):
+    return is_intlike(got) and exact.__floor__() <= got <= exact.__ceil__()
+
+
+def chk_display(case, col, tally=None):
+    """case: {'kind':'display', 'num', 'sym', 'code', 'den': None | symbol | 'num:<symbol>', 'network': name or None}
+    The text carries its own unit; `denominator=` only chooses how the amount is displayed. value_sat and every integer view of
+    the object (to_bytes, to_hex, __index__, hex(), value_to_satoshi(Value), Output/Input(Value)) must be the exact amount."""
+    import operator
+    from bitcoinlib.values import Value, value_to_satoshi
+    from bitcoinlib.transactions import Output, Input
+    num, sym, code, net, dspec = case['num'], case['sym'], case['code'], case.get('network'), case.get('den')
+    text = '%s %s%s' % (num, sym, code)
+    exact = exact_units(num, sym)
+    whole = exact.denominator == 1
+    dsym = None if dspec is None else (dspec[4:] if dspec.startswith('num:') else dspec)
+    same_as_unit = dsym is not None and DEN_EXP[dsym] == UNIT_EXP
+    cls = 'display/%s/as-%s' % (sym or 'unit', 'none' if dspec is None else (dsym or 'unit'))
+    ident = ('display', mag_class(int(exact)), sym, dspec, code, bool(net), whole)
+    if tally is not None:
+        tally.add(cls, ident, case)
+    else:
+        col.case(cls, nontrivial=ident, sample=case)
+    col.probe('display_denominator')
+    den, dexp = _den_arg(dspec)
+    views = {}
+    try:
+        v = Value(text, den, network=net) if net else Value(text, den)
+        views['value_sat'] = v.value_sat
+        views['to_bytes'] = int.from_bytes(v.to_bytes(), 'little')
+        views['to_hex'] = int.from_bytes(bytes.fromhex(v.to_hex()), 'little')
+        views['__index__'] = operator.index(v)
+        views['hex()'] = int(hex(v), 16)
+        views['value_to_satoshi(Value)'] = value_to_satoshi(v)
+        vnet = v.network.name
+        if vnet in ADDR:
+            views['Output(Value)'] = Output(v, address=ADDR[vnet], network=vnet).value
+        else:
+            views['Input(Value)'] = Input(prev_txid=b'\x11' * 32, output_n=0, value=v, network=vnet).value
+        shown = Fraction_of(v.denominator)
+        stext = v.str()
+    except Exception as e:
+        col.violation(None, 'Value(%r, denominator=%r) or one of its integer views raised %r (views so far %r)' % (text, den, e, views),
+                      case, repr(e), int(exact) if whole else float(exact))
+        return
+    bad = {k: g for k, g in views.items() if not _judge_int(g, exact)}
+    if not bad and len(set(views.values())) > 1 and whole:
+        bad = views
+    if bad or vnet not in networks_for(code):
+        try:
+            plain = Value(text).value_sat
+        except Exception as e:
+            plain = repr(e)
+        col.violation(None, 'Value(%r, denominator=%r)%s: %s; exact amount %s on %s; without the denominator argument value_sat = %r' % (
+            text, den, ' [display denominator = smallest unit]' if same_as_unit else '', bad or ('network %s' % vnet),
+            int(exact) if whole else float(exact), networks_for(code), plain), case, {k: (g if is_intlike(g) else repr(g)) for k, g in views.items()},
+            int(exact) if whole else [exact.__floor__(), exact.__ceil__()])
+        return
+    want = F(10) ** (dexp if dexp is not None else DEN_EXP[sym])
+    if shown != want:
+        col.violation(None, 'Value(%r, denominator=%r).denominator = %r, expected %s' % (text, den, v.denominator, float(want)), case,
+                      repr(v.denominator), float(want))
+        return
+    # the default text shows the same amount (numerically; fewer printed digits than a unit needs are a correct rounding)
+    col.probe('display_text')
+    try:
+        tnum, tunit = _split_text(stext)
+        ccode = NETCODES[vnet]
+        tsym = None
+        for s_ in sorted(SYMS, key=len, reverse=True):
+            rest = tunit[len(s_):] if tunit.startswith(s_) else None
+            if rest is not None and (rest == ccode or (rest == '' and 'sat' in s_ and vnet == 'bitcoin')):
+                tsym = s_
+                break
+        amount = dec_fraction(tnum) * F(10) ** (DEN_EXP[tsym] - UNIT_EXP)
+        printed = len(tnum.partition('.')[2])
+        ok = DEN_EXP[tsym] == (dexp if dexp is not None else DEN_EXP[sym]) and (
+            abs(amount - exact) < 1 or abs(amount - exact) <= F(1, 2) * F(10) ** (DEN_EXP[tsym] - UNIT_EXP - printed))
+    except Exception as e:
+        ok = False
+        stext = '%s (%r)' % (stext, e)
+    if not ok and exact < 2 ** 50:      # above 2^50 the printed digits are subject to the open float findings of format
+        col.violation(None, 'Value(%r, denominator=%r).str() = %r does not show the amount %s in the requested denominator' % (
+            text, den, stext, float(exact)), case, stext, render(int(exact), dexp if dexp is not None else DEN_EXP[sym]) if whole else float(exact))
+
+
+def Fraction_of(x):
+    return F(str(x)) if isinstance(x, float) else F(x)
+
+
+# ------------------------------------------------------------------ order dependence inside one process
+def chk_order(case, col, tally=None):
+    """case: {'kind':'order', 'steps': [{'text', 'num', 'sym' (listed symbol or None), 'code', 'api', 'network'}]}
+    Texts that differ only in the case of the prefix, the case of the currency code or in whitespace are converted one after the
+    other in this process; every result is judged on its own against the exact model (prefixes are case-sensitive: m = milli,
+    M = mega; currency codes are not). A spelling whose prefix is not a listed symbol is converted but not judged."""
+    from bitcoinlib.values import Value, value_to_satoshi
+    from bitcoinlib.transactions import Input
+    steps = case['steps']
+    shape = tuple((st['variant'], st['api']) for st in steps)
+    cls = 'order/%s' % '+'.join(sorted({st['variant'] for st in steps}))
+    ident = ('order', shape, steps[0]['sym'], steps[0]['code'])
+    if tally is not None:
+        tally.add(cls, ident, case)
+    else:
+        col.case(cls, nontrivial=ident, sample=case)
+    history = []
+    for i, st in enumerate(steps):
+        text, api, net = st['text'], st['api'], st.get('network')
+        try:
+            if api == 'v2s':
+                got = value_to_satoshi(text)
+            elif api == 'v2s-net':
+                got = value_to_satoshi(text, network=net)
+            elif api == 'Value':
+                got = Value(text).value_sat
+            else:
+                got = Input(prev_txid=b'\x22' * 32, output_n=0, value=text, network=net).value
+        except Exception as e:
+            got = 'raised %s: %s' % (type(e).__name__, str(e)[:80])
+        history.append('%s(%r) -> %s' % (api, text, got))
+        if st['sym'] is None:
+            col.probe('order_unlisted_spelling')
+            continue
+        exact = exact_units(st['num'], st['sym'])
+        if exact > TOP:
+            col.probe('order_above_supply')
+            continue
+        col.probe('order_step')
+        if _judge_int(got, exact):
+            continue
+        try:
+            direct = Value(text).value_sat
+        except Exception as e:
+            direct = repr(e)
+        whole = exact.denominator == 1
+        col.violation(None, 'conversion %d of a sequence in one process: %s(%r) = %r, exact %s; Value(text).value_sat now gives %r; '
+                      'conversions so far: %s' % (i + 1, api, text, got, int(exact) if whole else float(exact), direct, ' ; '.join(history)),
+                      dict(case, failed_step=i), got if is_intlike(got) else repr(got), int(exact) if whole else [exact.__floor__(), exact.__ceil__()])
+        return
+
+
+CODE_UPPER = {c.upper() for c in NETCODES.values()}
+
+
+def gen_display(rnd):
+    sym = rnd.choice([s_ for s_ in SYMS if s_ != 'T'])
+    code = rnd.choice(CODES)
+    n = gen_amount(rnd)
+    num = render(n, DEN_EXP[sym], rnd.choice(['min', 'min', 'full']))
+    if rnd.random() < 0.08 and DEN_EXP[sym] > UNIT_EXP:
+        num = render(n, DEN_EXP[sym], 'full') + rnd.choice('1579')       # finer than the unit
+    r = rnd.random()
+    if r < 0.45:
+        dspec = rnd.choice(['sat', 'num:sat', '', 'num:', 'm', 'num:m', 'µ', 'num:µ'])
+    elif r < 0.55:
+        dspec = None
+    else:
+        dsym = rnd.choice(SYMS)
+        dspec = rnd.choice([dsym, 'num:' + dsym])
+    net = rnd.choice(networks_for(code)) if rnd.random() < 0.3 else None
+    return {'kind': 'display', 'num': num, 'sym': sym, 'code': code, 'den': dspec, 'network': net}
+
+
+def gen_order(rnd):
+    sym = rnd.choice(['m', 'M', 'm', 'M', 'P', 'G', 'k', 'µ', 'n', 'c', 'd', 'da', 'h', 'E', 'Z', 'Y', 'sat', 'fin', 'msat', 'µsat', ''])
+    code = rnd.choice(CODES)
+    net = networks_for(code)[0]
+    n = gen_amount(rnd)
+    num = render(n, DEN_EXP[sym], rnd.choice(['min', 'full']))
+    variants = [('base', sym, code, ' ')]
+    if sym:
+        sw = sym.swapcase()
+        if sw != sym and (sw + code).upper() not in CODE_UPPER:
+            variants.append(('prefix-case', sw, code, ' '))
+            variants.append(('prefix-case', sw, code, ' '))
+    variants.append(('code-case', sym, rnd.choice([code.lower(), code.upper(), code.swapcase()]), ' '))
+    variants.append(('whitespace', sym, code, rnd.choice(['  ', '\t', '   '])))
+    variants.append(('whitespace', sym, code, 'pad'))
+    k = rnd.choice([2, 2, 3, 4])
+    chosen = rnd.sample(variants, min(k, len(variants)))
+    if rnd.random() < 0.6 and len(variants) > 2 and variants[1][0] == 'prefix-case' and variants[1] not in chosen:
+        chosen[0] = variants[1]
+        if variants[0] not in chosen:
+            chosen[-1] = variants[0]
+        rnd.shuffle(chosen)
+    steps = []
+    for variant, s_, c_, sep in chosen:
+        if (s_ + c_).upper() in CODE_UPPER and s_:
+            continue          # the spelling would be another network's currency code
+        text = (' %s %s%s  ' % (num, s_, c_)) if sep == 'pad' else '%s%s%s%s' % (num, sep, s_, c_)
+        steps.append({'variant': variant, 'text': text, 'num': num, 'sym': s_ if s_ in DEN_EXP else None, 'code': code,
+                      'api': rnd.choice(['v2s', 'v2s', 'v2s-net', 'Value', 'Input']), 'network': net})
+    if len(steps) < 2:
+        return None
+    return {'kind': 'order', 'steps': steps}
+
+
 CHECKS = {'parse': chk_parse, 'from_sat': chk_from_sat, 'format': chk_format, 'numeric': chk_numeric, 'output': chk_output,
-          'totals': chk_totals}
+          'totals': chk_totals, 'display': chk_display, 'order': chk_order}
 
 
 def run_case(case, col, tally=None):
@@ -768,6 +980,8 @@ def plan(tier, seed, scale=1.0):
                     'stride': 1 if thorough else 25,
                     'n_random': int((260000 if thorough else 12000) * scale),
                     'n_output': int((6000 if thorough else 500) * scale),
+                    'n_display': int((40000 if thorough else 1500) * scale),
+                    'n_order': int((20000 if thorough else 700) * scale),
                     'n_totals': int((1500 if thorough else 120) * scale)})
     return out
 
@@ -825,7 +1039,8 @@ def run_shard(spec, col):
     if lib_dens != {s: F(10) ** e for s, e in DEN_EXP.items()}:
         col.violation(None, 'denominator table differs from the metric prefixes', {'kind': 'tables'},
                       {s: str(v) for s, v in lib_dens.items()}, {s: '1e%d' % e for s, e in DEN_EXP.items()})
-    for p in ('parse', 'from_satoshi', 'format', 'roundtrip', 'numeric_constructor', 'output_value', 'output_refusals', 'totals'):
+    for p in ('parse', 'from_satoshi', 'format', 'roundtrip', 'numeric_constructor', 'output_value', 'output_refusals', 'totals',
+              'display_denominator', 'display_text', 'order_step', 'order_unlisted_spelling'):
         col.require(p)
     rnd = random.Random('%s-%d-%d' % (ID, spec['seed'], spec['shard']))
     tally = Tally(col)
@@ -874,6 +1089,15 @@ def run_shard(spec, col):
         run_case(gen_output(rnd), col, tally)
     for i in range(spec['n_totals']):
         run_case(gen_totals(rnd), col, tally)
+    # unit-carrying strings x display denominator argument; order-dependent spellings in this one process (interleaved)
+    nd, no = spec.get('n_display', 0), spec.get('n_order', 0)
+    for i in range(max(nd, no)):
+        if i < nd:
+            run_case(gen_display(rnd), col, tally)
+        if i < no:
+            case = gen_order(rnd)
+            if case is not None:
+                run_case(case, col, tally)
     tally.flush()
 
 
